@@ -2,6 +2,7 @@
 from vx import core, v1types
 from vx.props import common
 from vx.units import evaluate as ev, qubo, fn_stubs, iters
+from vx.units import validate as va
 
 
 def types(asm):
@@ -55,14 +56,13 @@ pub open spec fn cfun(c: v1::Constraint) -> v1::Function { match c.function { So
         asm.file(sp)
     asm.file('spec/qubo_spec.rs')
     asm.raw(qubo.TERMS_LEMMAS, 'the term list of the proved iterator contract sums to the objective')
-    asm.raw('} // mod lib\npub mod units {\n' + common.UNITS_USES + 'use super::lib::v1::instance::Sense;\nbroadcast use super::lib::ax_zero_f64, super::lib::ax_binary_ids_cmp, super::lib::ax_binary_id_pair_cmp;\n')
+    asm.raw('} // mod lib\npub mod units {\n' + common.UNITS_USES + 'use super::lib::v1::instance::Sense;\nbroadcast use super::lib::ax_zero_f64, super::lib::ax_binary_ids_cmp, super::lib::ax_binary_id_pair_cmp, super::lib::lemma_lin_ids_mem_b;\n')
     asm.raw(fn_stubs.ZERO + iters.SORT_STUB + qubo.STUBS, 'assumed callee contracts')
     for n, where in (('Function::zero', 'C02'), ('Instance::binary_ids', 'assumed (iterator filter/collect)'),
-                     ('Function::used_decision_variable_ids (C08)', 'C08 for Constant/Linear and the dispatch; the Quadratic/Polynomial collects are assumed there'),
                      ('name_terms: the list the term iterator yields for a message is a function of the message (purity naming fterms)', 'assumed; everything else about the term iterators is proved here on the real code (same units as C02)'),
                      ('slice::sort_unstable + Vec::dedup (helper vec_sort_dedup)', 'std contract')):
         asm.stubs.append(dict(unit=n, proved_in=where))
-    for u in iters.iterator_units() + [ev.instance_objective(), qubo.binary_ids_from_sorted()] + qubo.binary_id_pair_try_from() + [qubo.as_pubo_format(), qubo.as_qubo_format()]:
+    for u in iters.iterator_units() + [va.linear_used_ids(), va.quadratic_used_ids(), va.polynomial_used_ids(), va.function_used_ids(), ev.instance_objective(), qubo.binary_ids_from_sorted()] + qubo.binary_id_pair_try_from() + [qubo.as_pubo_format(), qubo.as_qubo_format()]:
         asm.unit(u)
     asm.raw('} // mod units\n')
     asm.guard(common.guard_fn('c11', 'broadcast use ax_zero_f64, ax_binary_ids_cmp, ax_binary_id_pair_cmp;', uses='use super::lib::*;'), 'vacuity: axioms')
